@@ -161,6 +161,29 @@ func PlanFromSeed(seed int64, k int) Plan {
 		p.FirstPeer = 0
 		p.Extend, p.ReorgDepth = 0, 0
 	}
+	if k == 14 {
+		// A fixed scenario (the shape in which the thorough tier found defect
+		// 04db76c): the first peer is on a valid lighter fork from height 26;
+		// two filter-header liars lie at different heights, one of them below
+		// the fork point and never answering the filter request (the first
+		// dispute takes a query timeout), so that the client adopts the honest
+		// chain WHILE the disputes are being resolved.
+		p.ChainLen = 1321
+		p.Checkpoints = nil
+		p.Preset = 1
+		p.Interval = 8
+		p.Peers = []PeerPlan{
+			{Kind: BLiar, Lies: []netsim.Lie{{Kind: netsim.LieUnserved, Height: 19}}},
+			{Kind: BLighter, At: 712},
+			{Kind: BHonest},
+			{Kind: BLiar, Lies: []netsim.Lie{{Kind: netsim.LieWrongHash, Height: 242}}},
+			{Kind: BLighter, At: 26},
+		}
+		p.FirstPeer = -1 // all at once, as found: the fork peer wins the race for sync peer in this world
+		p.Seed = 1000373
+		p.Announce = "inv"
+		p.Extend, p.ReorgDepth = 3, 8
+	}
 	if k == 13 {
 		// A fixed scenario: a chain longer than one headers message (2000),
 		// honest peers only; after the sync the honest chain reorganises near
